@@ -256,6 +256,11 @@ def run(ctx):
 
     pipeline.drive_and_validate(ctx, exe, execs, SPEC_DIR, "DateTimeTrace", "Trace.cfg", label="dt", nbatch=16,
                                 env={"TZ": "UTC"}, tlc_env={"VERIF_DEV_" + d: "1" for d in devs}, on_fired=on_fired)
+    # the process-locale family (lib/vlib/locale8.py): a slice of the same executions in a process that called setlocale()
+    # - an 8-bit character set with accented letters, and day / month names that are not the English ones
+    from vlib import locale8
+    locale8.rerun(ctx, exe, execs[::4] if not thorough else execs[::2], SPEC_DIR, "DateTimeTrace", "Trace.cfg", "dt", names=("xx_XX", "zz_ZZ"),
+                  base_env={"TZ": "UTC"}, nbatch=8, tlc_env={"VERIF_DEV_" + d: "1" for d in devs}, on_fired=on_fired)
     # the UTC views, formatters and the parser must not depend on the zone the process runs in: every third execution
     # again under zones west and east of Greenwich, with half-hour offsets and with daylight-saving rules
     zones = ["EST5EDT,M3.2.0,M11.1.0", "IST-5:30", "NZST-12NZDT,M9.5.0,M4.1.0/3", "<-11>11"]
